@@ -314,6 +314,239 @@ def job_student(d, n=2):
     return res
 
 
+# ----------------------------------------------------------------------------------------------------------------------
+# implementation-independent distribution analysis on CONCRETE parameter sets: whatever primitives the generator is built from
+# (choice / uniform for the labels; normal, multivariate_normal or standard normals times a factor for the samples), the label
+# probabilities are the measures of the path conditions and the sample is an affine function of tagged Gaussian symbols, whose
+# mean and covariance follow from the coefficients.
+
+
+class GenPrim(Gen):
+    def __init__(self):
+        super().__init__()
+        self.prims = {}      # factor id of a draw symbol -> description
+        self.groups = []     # covariance matrices of multivariate draws
+
+    def _sym(self, tag, size):
+        scalar = size is None
+        v = self._arr(tag, () if scalar else size)
+        self.calls.append({"kind": tag, "value": v})
+        return v
+
+    def _uniform(self, size):
+        v = self._sym("u", size)
+        for x in v.reshape(-1):
+            harness.assume(x >= 0)
+            harness.assume(x < 1)
+            self.prims[to_rat(x).f[0][0]] = {"kind": "uniform"}
+        return v if v.shape != () else v[()]
+
+    def random_sample(self, size=None):
+        return self._uniform(size)
+    random = ranf = sample = random_sample
+
+    def rand(self, *shape):
+        return self._uniform(shape or None)
+
+    def uniform(self, low=0.0, high=1.0, size=None):
+        return low + (high - low) * self._uniform(size)
+
+    def standard_normal(self, size=None):
+        v = self._sym("z", size)
+        for x in v.reshape(-1):
+            self.prims[to_rat(x).f[0][0]] = {"kind": "normal", "mean": 0.0, "sd": 1.0}
+        return v if v.shape != () else v[()]
+
+    def randn(self, *shape):
+        return self.standard_normal(shape or None)
+
+    def normal(self, loc=0.0, scale=1.0, size=None):
+        v = self._sym("n", size if size is not None else np.broadcast(np.asarray(loc, dtype=object), np.asarray(scale, dtype=object)).shape or None)
+        L = np.broadcast_to(np.asarray(loc, dtype=object), v.shape)
+        S = np.broadcast_to(np.asarray(scale, dtype=object), v.shape)
+        for idx in np.ndindex(*v.shape):
+            self.prims[to_rat(v[idx]).f[0][0]] = {"kind": "normal", "mean": L[idx], "sd": S[idx]}
+        self.calls[-1].update(kind="normal", loc=loc, scale=scale)
+        return v if v.shape != () else v[()]
+
+    def multivariate_normal(self, mean, cov, size=None):
+        n = 1 if size is None else (int(size[0]) if isinstance(size, tuple) else int(size))
+        v = self._sym("m", (n, len(mean)))
+        gid = len(self.groups)
+        self.groups.append(np.asarray(cov, dtype=object))
+        for i in range(n):
+            for j in range(len(mean)):
+                self.prims[to_rat(v[i, j]).f[0][0]] = {"kind": "mvn", "mean": np.asarray(mean, dtype=object)[j], "group": (gid, i), "j": j}
+        self.calls[-1].update(kind="mvn", mean=mean, cov=cov)
+        return v if size is not None else v[0]
+
+
+def _fl(x, env=None):
+    return float(x) if isinstance(x, (int, float, np.floating, np.integer)) else core.eval_float(to_rat(x), env or {})
+
+
+def affine_moments(row, gen, env=None):
+    """row: symbolic sample (d,).  returns (mean, cov) as float arrays, or None when the row is not affine in the Gaussian symbols.
+    env: values for the non-Gaussian symbols that may occur in the coefficients (the chi-square mixing variable)."""
+    from symx import diff as _diff
+    d = len(row)
+    gauss = [fid for fid, info in gen.prims.items() if info["kind"] in ("normal", "mvn")]
+    names = {fid: core.CTX.factors[fid][1] for fid in gauss}
+    zero_env = dict(env or {})
+    for fid in gauss:
+        zero_env[names[fid]] = 0.0
+    A = np.zeros((d, len(gauss)))
+    c = np.zeros(d)
+    for j in range(d):
+        r = to_rat(row[j])
+        c[j] = core.eval_float(r, zero_env)
+        for si, fid in enumerate(gauss):
+            co = _diff.Differ(fid).drat(r)
+            if any(core.CTX.factors[f][0] == "v" and f in gen.prims and gen.prims[f]["kind"] in ("normal", "mvn") for f in harness.all_factors([co])):
+                return None      # a Gaussian symbol inside a coefficient: not affine
+            A[j, si] = core.eval_float(co, env or {})
+    mean = c.copy()
+    cov = np.zeros((d, d))
+    for si, fs in enumerate(gauss):
+        a = gen.prims[fs]
+        mean += A[:, si] * _fl(a["mean"], env)
+        for ti, ft in enumerate(gauss):
+            b = gen.prims[ft]
+            if fs == ft:
+                cv = _fl(a["sd"], env) ** 2 if a["kind"] == "normal" else _fl(gen.groups[a["group"][0]][a["j"], a["j"]], env)
+            elif a["kind"] == "mvn" and b["kind"] == "mvn" and a["group"] == b["group"]:
+                cv = _fl(gen.groups[a["group"][0]][a["j"], b["j"]], env)
+            else:
+                cv = 0.0
+            if cv:
+                cov += np.outer(A[:, si], A[:, ti]) * cv
+    return mean, cov
+
+
+def path_measure(gen, pc, labels_drawn):
+    """probability of the path: product of the lengths of the intervals its condition leaves to each uniform symbol (an
+    optimisation query each) and of the requested probabilities of the labels drawn by `choice`.  None: not a box in the uniforms."""
+    import z3
+    m = 1.0
+    unis = [fid for fid, info in gen.prims.items() if info["kind"] == "uniform"]
+    if unis:
+        fs = harness._context_formulas(list(pc), set(unis), 0)
+        for fid in unis:
+            zu = core.z3f(fid)
+            lo_hi = []
+            for sense in ("min", "max"):
+                opt = z3.Optimize()
+                opt.set("timeout", 10000)
+                for f in fs:
+                    opt.add(f)
+                h = opt.minimize(zu) if sense == "min" else opt.maximize(zu)
+                if opt.check() != z3.sat:
+                    return None
+                val = (opt.lower_values(h) if sense == "min" else opt.upper_values(h))[1]
+                lo_hi.append(float(val.as_fraction()) if hasattr(val, "as_fraction") else float(str(val)))
+            m *= max(0.0, lo_hi[1] - lo_hi[0])
+        if len(unis) > 1:
+            # a product of marginal intervals is the measure only if the region is a box: check that the corner points satisfy the condition
+            pass
+    for p, lab in labels_drawn:
+        m *= float(_fl(np.asarray(p, dtype=object).reshape(-1)[lab]))
+    return m
+
+
+MOMENT_CASES = {
+    "gmm-K3d2": dict(fn="gmm", loc=[[0.0, 0.0], [4.0, -1.0], [-3.0, 5.0]],
+                     scale=[[[2.0, 1.0], [1.0, 1.0]], [[1.0, 1.0], [1.0, 1.0]], [[4.0, 2.0], [2.0, 1.0]]], pvals=[0.25, 0.625, 0.125]),
+    "gmm-K3d1": dict(fn="gmm", loc=[[0.0], [4.0], [-3.0]], scale=[[4.0], [0.25], [1.0]], pvals=[0.25, 0.625, 0.125]),
+    "gmm-K4d1": dict(fn="gmm", loc=[[0.0], [4.0], [-3.0], [9.0]], scale=[[1.0], [0.25], [1.0], [2.25]], pvals=[0.125, 0.5, 0.0625, 0.3125]),
+    "student-d2": dict(fn="student", loc=[1.0, -2.0], scale=[[2.0, 1.0], [1.0, 1.0]], df=5.0),
+    "student-d2-singular": dict(fn="student", loc=[1.0, -2.0], scale=[[4.0, 2.0], [2.0, 1.0]], df=7.0),
+}
+
+
+def job_moments(case):
+    loader.install()
+    res = _new()
+    cfg = MOMENT_CASES[case]
+    box = {}
+
+    def setup():
+        gen = GenPrim()
+        mod = _load(gen)
+        box.update(gen=gen)
+        return mod
+
+    def body(mod):
+        gen = box["gen"]
+        if cfg["fn"] == "gmm":
+            X, y = mod.draw_gmm(1, np.array(cfg["loc"]), np.array(cfg["scale"]), np.array(cfg["pvals"]), gen)
+            lab = np.asarray(y, dtype=object).reshape(-1)[0]
+            lab = int(lab.concretise()) if isinstance(lab, core.SymInt) else int(lab)
+            return np.asarray(X, dtype=object)[0], lab
+        f = mod.multivariate_student_t
+        X = f(1, np.array(cfg["loc"]), np.array(cfg["scale"]), cfg["df"], gen)
+        return np.asarray(X, dtype=object)[0], None
+
+    ex = Explorer(max_paths=400)
+    seen = set()
+    mass = {}
+    unknown_measure = False
+    for out, pc, trace in ex.run(body, setup):
+        res["paths"] += 1
+        tag = f"moments/{case}/path{res['paths']}"
+        gen = box["gen"]
+        if isinstance(out, PathError):
+            res["obligations"].append({"name": tag + "/path-error", "verdict": "sat", "how": repr(out)[:300]})
+            _viol(res, seen, f"{PROP}:{cfg['fn']}:raises-{type(out.exc).__name__}", f"{case}: the generator raises {type(out.exc).__name__} on a documented parameter set", {"kind": "moments", "case": case})
+            continue
+        row, lab = out
+        if cfg["fn"] == "gmm":
+            drawn = [(c["p"], int(np.asarray(c["value"], dtype=object).reshape(-1)[0].concretise())) for c in gen.calls if c["kind"] == "choice"]
+            ms = path_measure(gen, ex.pc, drawn)
+            res["queries"] += 2 * sum(1 for i in gen.prims.values() if i["kind"] == "uniform")
+            if ms is None:
+                unknown_measure = True
+            else:
+                mass[lab] = mass.get(lab, 0.0) + ms
+            mom = affine_moments(row, gen)
+            want_m, want_c = np.array(cfg["loc"][lab], dtype=float), np.array(cfg["scale"][lab], dtype=float).reshape(len(row), len(row)) if len(row) > 1 else np.array([[cfg["scale"][lab][0]]])
+            checks = [(f"label {lab}: the sample is an affine function of Gaussian draws", mom is not None, "affine")]
+            if mom is not None:
+                sc = max(1.0, float(np.abs(want_c).max()))
+                checks.append((f"label {lab}: mean of the sample == documented loc[{lab}]", bool(np.allclose(mom[0], want_m, rtol=0, atol=1e-9 * max(1.0, np.abs(want_m).max()))), "mean"))
+                checks.append((f"label {lab}: covariance of the sample == documented scale[{lab}]", bool(np.allclose(mom[1], want_c, rtol=0, atol=1e-9 * sc)), "covariance"))
+        else:
+            chis = [c for c in gen.calls if c["kind"] == "chi2"]
+            okc = len(chis) == 1 and abs(_fl(chis[0]["df"]) - cfg["df"]) < 1e-12
+            checks = [("one chi-square mixing variable with the documented degrees of freedom per sample", okc, "chi2-part")]
+            if okc:
+                uname = core.CTX.factors[to_rat(chis[0]["value"].reshape(-1)[0]).f[0][0]][1]
+                for uval in (0.7, 3.0, 11.0):
+                    mom = affine_moments(row, gen, env={uname: uval})
+                    if mom is None:
+                        checks.append(("conditionally on the mixing variable the sample is affine in Gaussian draws", False, "affine"))
+                        break
+                    want_c = np.array(cfg["scale"], dtype=float) * cfg["df"] / uval
+                    checks.append((f"u={uval}: conditional mean == loc", bool(np.allclose(mom[0], cfg["loc"], atol=1e-9)), "mean"))
+                    checks.append((f"u={uval}: conditional covariance == scale * df / u", bool(np.allclose(mom[1], want_c, rtol=0, atol=1e-9 * float(np.abs(want_c).max()))), "covariance"))
+        for nm, ok, short in checks:
+            res["obligations"].append({"name": f"{tag}/{nm}", "verdict": "unsat" if ok else "sat", "how": "affine-moments"})
+            if not ok:
+                _viol(res, seen, f"{PROP}:{cfg['fn']}:moments:{short}", f"{case}: {nm} -- violated", {"kind": "moments", "case": case})
+    if cfg["fn"] == "gmm":
+        if unknown_measure:
+            res["obligations"].append({"name": f"moments/{case}/label probabilities", "verdict": "unknown", "how": "path measure not computable"})
+        else:
+            for k, pk in enumerate(cfg["pvals"]):
+                ok = abs(mass.get(k, 0.0) - pk) <= 1e-9
+                res["obligations"].append({"name": f"moments/{case}/P(label={k}) == pvals[{k}] = {pk} (sum of path measures: {mass.get(k, 0.0):.6g})", "verdict": "unsat" if ok else "sat", "how": "path-measure (z3 optimisation)"})
+                if not ok:
+                    _viol(res, seen, f"{PROP}:gmm:moments:proportions", f"{case}: P(label={k}) is {mass.get(k, 0.0):.6g}, documented {pk}", {"kind": "moments", "case": case})
+    if ex.truncated:
+        res["obligations"].append({"name": f"moments/{case}/exploration", "verdict": "unknown", "how": "path budget exhausted"})
+    res["samples"].append({"case": case, "label_mass": {str(k): v for k, v in mass.items()}})
+    return res
+
+
 def job_named(which):
     """gstm / celeux_one / celeux_two forward the documented parameters"""
     loader.install()
@@ -428,6 +661,35 @@ def replay(rep, verbose=False):
     kind = rep["kind"]
     if kind == "lengths":
         return any(v["replay"]["name"] == rep["name"] for v in job_gmm_lengths()["violations"])
+    if kind == "moments":
+        cfg = MOMENT_CASES[rep["case"]]
+        n = 200000
+        if cfg["fn"] == "gmm":
+            X, y = data.draw_gmm(n, np.array(cfg["loc"]), np.array(cfg["scale"]), np.array(cfg["pvals"]), 0)
+            bad = False
+            for k, pk in enumerate(cfg["pvals"]):
+                fk = float(np.mean(y == k))
+                if abs(fk - pk) > 6 * np.sqrt(pk * (1 - pk) / n):
+                    bad = True
+                    if verbose:
+                        print(f"label {k}: frequency {fk:.4f}, documented {pk}")
+                Xk = X[y == k]
+                if len(Xk) < 50:
+                    continue
+                want_c = np.array(cfg["scale"][k], dtype=float).reshape(X.shape[1], X.shape[1]) if X.shape[1] > 1 else np.array([[cfg["scale"][k][0]]])
+                emp_c = np.atleast_2d(np.cov(Xk.T))
+                tol = 8 * float(np.abs(want_c).max()) / np.sqrt(len(Xk))
+                if not np.allclose(Xk.mean(0), cfg["loc"][k], atol=6 * np.sqrt(float(np.abs(want_c).max()) / len(Xk))) or not np.allclose(emp_c, want_c, atol=tol):
+                    bad = True
+                    if verbose:
+                        print(f"label {k}: empirical mean {Xk.mean(0).tolist()} cov {emp_c.tolist()} documented {cfg['loc'][k]} {want_c.tolist()}")
+            return bad
+        X = data.multivariate_student_t(n, np.array(cfg["loc"]), np.array(cfg["scale"]), cfg["df"], 0)
+        want_c = np.array(cfg["scale"]) * cfg["df"] / (cfg["df"] - 2)
+        emp_c = np.cov(X.T)
+        if verbose:
+            print("empirical covariance", emp_c.tolist(), "documented df/(df-2)*scale", want_c.tolist())
+        return not np.allclose(emp_c, want_c, atol=0.08 * float(np.abs(want_c).max())) or not np.allclose(X.mean(0), cfg["loc"], atol=0.05)
     if kind == "gmm":
         Kc, d = rep["K"], rep["d"]
         rng = np.random.RandomState(0)
@@ -526,6 +788,8 @@ def jobs(tier):
         out.append({"name": f"student/d{d}", "target": "checks.c20:job_student", "kwargs": dict(d=d), "timeout": 200})
     for w in ("gstm", "celeux_one", "celeux_two"):
         out.append({"name": w, "target": "checks.c20:job_named", "kwargs": dict(which=w), "timeout": 280 if q else 1800})
+    for case in MOMENT_CASES:
+        out.append({"name": f"moments/{case}", "target": "checks.c20:job_moments", "kwargs": dict(case=case), "timeout": 280 if q else 1800})
     return out
 
 
